@@ -384,6 +384,14 @@ func (vc *VC) execAppend(fr *frame, st *State, c *ssa.CallCommon, args []Val, po
 		return vc.appendStructElems(fr, st, s, add, et, newLen, fits, pos)
 	}
 	comps := elemComps(et)
+	memOK := false
+	var memRowOld, memX *Term
+	if one, ok := addLen.IntVal(); ok && one.IsInt64() && one.Int64() == 1 && len(comps) == 1 && comps[0].sort == SInt {
+		m0 := vc.heapGet(st, elemMapKey(et), ArrSort(SInt, ArrSort(SInt, SInt)))
+		memRowOld = p.Select(m0, s.Arr)
+		memX = p.Select(p.Select(m0, add.Arr), add.Off)
+		memOK = true
+	}
 	// in-place result
 	inPlace := st.clone()
 	realloc := st.clone()
@@ -417,6 +425,17 @@ func (vc *VC) execAppend(fr *frame, st *State, c *ssa.CallCommon, args []Val, po
 		Off: p.Ite(fits, s.Off, p.Int(0)),
 		Len: newLen,
 		Cap: p.Ite(fits, s.Cap, ncap)}
+	// membership lemma (sound by the semantics of append): the elements of append(s, x) are those of s and x.
+	// inlist is otherwise uninterpreted; its meaning is fixed by the definitional axioms emitted where a contract
+	// uses it (eval.go: builtin inlist) and by these instances.
+	if memOK {
+		rowNew := p.Select(vc.heapGet(st, elemMapKey(et), ArrSort(SInt, ArrSort(SInt, SInt))), res.Arr)
+		vc.qSeq++
+		a := p.Var(fmt.Sprintf("m?%d", vc.qSeq), SInt)
+		lhs := p.App("inlist", SBool, rowNew, res.Off, res.Len, a)
+		rhs := p.Or(p.Eq(a, memX), p.App("inlist", SBool, memRowOld, s.Off, s.Len, a))
+		vc.assume(st, p.Forall([]*Term{a}, p.Eq(lhs, rhs)))
+	}
 	return res
 }
 
